@@ -191,10 +191,11 @@ def directed_sequences():
         S.append({"vec": False, "src": [(f"i{j}", 1) for j in range(len(cs))], "plans": plans, "init": {}, "shape": shape,
                   "events": [["run", "A", True, False], ["run", "A", True, False], ["newdst"], ["run", "A", True, False]],
                   "note": f"commands {shape}: failure position x return-file position"})
-    for shape in ("un", "nu"):
+    for shape, src in (("un", [("a", 3), ("b", 3), ("c", 2), ("d", 1)]), ("nu", [("b", 3), ("c", 2)])):
         cs = combos(2)
-        S.append({"vec": True, "src": [("a", 3), ("b", 3), ("c", 2), ("d", 1)], "shape": shape, "init": {},
-                  "plans": {"a.0": [cs[3]], "a.2": [cs[1]], "b.1": [cs[5], cs[4]], "b.2": [cs[2]], "c.0": [cs[7]], "c.1": [cs[8]], "d.0": [cs[0]]},
+        plans = {"a.0": [cs[3]], "a.2": [cs[1]], "b.1": [cs[5], cs[4]], "b.2": [cs[2]], "c.0": [cs[7]], "c.1": [cs[8]], "d.0": [cs[0]]}
+        S.append({"vec": True, "src": src, "shape": shape, "init": {},
+                  "plans": {nm: pl for nm, pl in plans.items() if nm[0] in dict(src)},
                   "events": [["run", "A", True, True], ["run", "A", True, True], ["newdst"], ["run", "A", True, True]],
                   "note": f"vectorised commands {shape}: failure position x return-file position"})
     S.append({"vec": False, "src": [("a", 1), ("b", 1), ("c", 1)], "shape": "un", "init": {}, "carrier": "file",
@@ -431,7 +432,7 @@ def judge(sq, res):
     # name -> (argument, attempt, steps); None once the cached file was damaged from outside
     latest = {}
 
-    def succeeded(t):
+    def cmds_ok(t):
         return outcome_of(t[2])[:2] == (0, True)
     for jid, carrier in res.get("hash_collisions", []):
         v.append((f"C18:hash:different-inputs-same-hash:{carrier}", f"the JobInputs prepared for {jid} with arguments A and B "
@@ -456,7 +457,7 @@ def judge(sq, res):
                 ex = o["count"].get(nm, 0) - prev["count"].get(nm, 0)
                 c0 = prev["cache"].get(nm, "absent")
                 t0 = latest.get(nm)
-                if not ex and key not in prev["dst"] and t0 is not None and not succeeded(t0):
+                if not ex and key not in prev["dst"] and t0 is not None and not cmds_ok(t0):
                     v.append(("C18:failed-run-reused:" + kind_of(t0[2], shape),
                               f"{nm} not executed although a command of its latest execution (#{t0[1]}, commands {'/'.join(t0[2])}, "
                               f"named/unnamed {shape}) failed or left no return file; its cached output reads {c0}"))
@@ -509,7 +510,7 @@ def judge(sq, res):
             ts = [latest.get(nm) for nm in names_of(key, L, vec)]
             if any(t is None for t in ts):
                 continue                       # a damaged file that was not recomputed: judged above
-            bad_t = [t for t in ts if not succeeded(t)]
+            bad_t = [t for t in ts if not cmds_ok(t)]
             if key in o["dst"]:
                 if bad_t:
                     t = bad_t[0]
